@@ -401,7 +401,7 @@ def write_replay(pid, obligation, payload):
 
 def check_property(pid, tier, seed, only_unit=None):
     t0 = time.time()
-    units = [u for u in U.all_units() if pid in u["properties"]]
+    units = [u for u in U.all_units(pid) if pid in u["properties"]]
     if only_unit:
         units = [u for u in units if u["name"] == only_unit]
     if not units:
